@@ -48,6 +48,10 @@ class Rig:
             with core.watchdog():
                 if op == "open":
                     self.srv.reopen()
+                elif op == "openfail":
+                    self.mod.bind_fail = True
+                    if self.srv.reopen():
+                        return "reopen() reports success although bind() failed"
                 elif op == "peer":
                     f = fakesock.FakeConn(ca=ADDR[a[0]], ha=("127.0.0.1", 56000), tls=self.tls, registry=None)
                     f.peer = a[0]
@@ -119,7 +123,7 @@ def judge_step(rig, e):
         return "%d socket(s) still open that the endpoint no longer holds: %s" % (
             len(orphans), ["accepted from %s" % (s.ca,) if isinstance(s, fakesock.FakeConn) and not isinstance(s, fakesock.DualSocket)
                            else "created by socket()" for s in orphans])
-    if e["op"] == "close":
+    if e["op"] in ("close", "openfail"):
         left = [k for k, s in held.items() if k != "client" and not s.closed]
         if left:
             return "after Server.close() still open: %s" % left
